@@ -11,7 +11,7 @@ SRC = ['harness/c06_capacity.c', 'ref/edu_decoder.c']
 def run(vc, tier):
     c = vc.Check('C06', tier, 'exploration', RULE)
     q = tier == 'quick'
-    c.run_vx_unit('c06-comp', SRC, 'asan', ['--mode', 'comp', '--D', 1 if q else 2, '--capstep', 4 if q else 1, '--segdev', 2 if q else 4], share=0.5)
+    c.run_vx_unit('c06-comp', SRC, 'asan', ['--mode', 'comp', '--D', 1 if q else 2, '--capstep', 8 if q else 1, '--segdev', 1 if q else 4], share=0.6)
     c.run_vx_unit('c06-alpha', SRC, 'asan', ['--mode', 'alpha', '--D', 0], share=0.4)
     c.run_vx_unit('c06-bound', SRC, 'asan', ['--mode', 'bound', '--D', 1 if q else 2], share=0.5)
     c.run_vx_unit('c06-decomp', SRC, 'asan', ['--mode', 'decomp', '--cat', vc.catalogue('quick'), '--stride', 2 if q else 1, '--D', 0], share=0.9)
